@@ -36,6 +36,17 @@ SubR(a, b, i, br, acc) ==
                   ELSE SubR(a, b, i - 1, 0, <<d>> \o acc)
 SubMag(a, b) == LET n == Len(a) IN Norm(SubR(a, PadLeft(b, n), n, 0, <<>>))
 
+\* a * d on magnitudes, d one byte: digits from the right with a carry
+RECURSIVE MulByteR(_, _, _, _, _)
+MulByteR(a, d, i, c, acc) == IF i = 0 THEN (IF c = 0 THEN acc ELSE <<c>> \o acc)
+                             ELSE LET s == a[i] * d + c IN MulByteR(a, d, i - 1, s \div 256, <<s % 256>> \o acc)
+MulByte(a, d) == Norm(MulByteR(a, d, Len(a), 0, <<>>))
+\* a * b on magnitudes: Horner over the bytes of b (acc * 256 + a * b[i])
+RECURSIVE MulMagR(_, _, _, _)
+MulMagR(a, b, i, acc) == IF i > Len(b) THEN acc
+                         ELSE MulMagR(a, b, i + 1, AddMag(IF acc = <<>> THEN <<>> ELSE acc \o <<0>>, MulByte(a, b[i])))
+MulMag(a, b) == IF a = <<>> \/ b = <<>> THEN <<>> ELSE MulMagR(a, b, 1, <<>>)
+
 MkInt(neg, mag) == [neg |-> neg /\ mag # <<>>, mag |-> mag]
 Zero == MkInt(FALSE, <<>>)
 IsZero(x) == x.mag = <<>>
@@ -49,6 +60,7 @@ Add(x, y) ==
          ELSE IF c > 0 THEN MkInt(x.neg, SubMag(x.mag, y.mag))
          ELSE MkInt(y.neg, SubMag(y.mag, x.mag))
 Sub(x, y) == Add(x, Neg(y))
+Mul(x, y) == MkInt(x.neg # y.neg, MulMag(x.mag, y.mag))
 
 Less(x, y) ==
     IF x.neg # y.neg THEN x.neg
